@@ -33,6 +33,8 @@ use crate::version::Version;
 use mio::net::{TcpListener, UdpSocket};
 use mio::{Events, Poll, PollOpt, Ready, Token};
 use mio_extras::timer::Timer;
+use net2::unix::UnixTcpBuilderExt;
+use net2::TcpBuilder;
 use rand::{thread_rng, RngCore};
 
 // mio event registrations
@@ -102,7 +104,7 @@ impl Server {
                 .parse()
                 .unwrap();
 
-            let tcp_listener = TcpListener::bind(&hc_sock_addr)
+            let tcp_listener = Self::bind_health_listener(&hc_sock_addr)
                 .expect("failed to bind TCP listener for health check");
 
             poll.register(
@@ -156,6 +158,19 @@ impl Server {
             #[cfg(feature = "fuzzing")]
             fake_client_socket: UdpSocket::bind(&"127.0.0.1:0".parse().unwrap()).unwrap(),
         }
+    }
+
+    // Every worker creates its own `Server` and so its own health check listener on the same
+    // port. SO_REUSEPORT (as on the UDP socket) lets all of them bind it; the kernel spreads
+    // incoming connections among the workers.
+    fn bind_health_listener(addr: &SocketAddr) -> std::io::Result<TcpListener> {
+        let builder = match addr {
+            SocketAddr::V4(..) => TcpBuilder::new_v4()?,
+            SocketAddr::V6(..) => TcpBuilder::new_v6()?,
+        };
+        builder.reuse_address(true)?.reuse_port(true)?.bind(addr)?;
+
+        TcpListener::from_std(builder.listen(1024)?)
     }
 
     /// Returns a reference to the server's long-term public key
